@@ -162,7 +162,6 @@ func writeE2E(rng *rand.Rand, dir string, n int, immediate, small bool) {
 			var data strings.Builder
 			ls := lines[a]
 			linger := "sleep 0.3; "
-			_ = ai
 			if immediate {
 				linger = ""
 				immediateOf[a] = true
@@ -180,7 +179,12 @@ func writeE2E(rng *rand.Rand, dir string, n int, immediate, small bool) {
 				}
 			}
 			vh.WriteFile(pdir, a+".txt", data.String())
-			vh.WriteFile(pdir, a+".final", ls[len(ls)-1]+"\n")
+			// every second spotlight's output ends without a newline
+			nl := "\n"
+			if ai%2 == 0 {
+				nl = ""
+			}
+			vh.WriteFile(pdir, a+".final", ls[len(ls)-1]+nl)
 			script := "trap 'echo hup >> " + abs + "/" + a + ".hup; cat " + abs + "/" + a + ".final; echo ok >> " + abs + "/" + a + ".hupdone; " + linger + "exit 0' HUP\n" +
 				"echo start >> " + abs + "/" + a + ".started\n" +
 				"n=0\nwhile IFS= read -r l; do\n  n=$((n+1))\n" +
